@@ -199,6 +199,25 @@ class Crate:
     def body(self, path):
         return self.bodies.get(path)
 
+    def owner_of(self, b):
+        """the function a closure body belongs to: the body that creates it (after inlining that may be a caller of the helper
+        that defined it), else its lexical parent; never loops when the parent was inlined away"""
+        seen = set()
+        while b.is_closure and b.path not in seen:
+            seen.add(b.path)
+            nb = None
+            for pth, cbs in getattr(self, "closures_of", {}).items():
+                if any(cb is b for cb in cbs) and pth in self.bodies:
+                    nb = self.bodies[pth]
+                    break
+            if nb is None:
+                par = b.j.get("closure_parent")
+                nb = self.bodies.get(par) or getattr(self, "helper_bodies", {}).get(par)
+            if nb is None or nb is b:
+                break
+            b = nb
+        return b
+
     def find_bodies(self, adt=None, trait=None, name=None, closures=False):
         out = []
         for b in self.bodies.values():
